@@ -64,6 +64,7 @@ func c04Level(t *core.Tape, in world.TcbInputs) world.TcbLevel {
 	if t.Chance(2, 5) {
 		l.Status = "UpToDate"
 	}
+	l.Date = world.RandTcbDate(t)
 	return l
 }
 
@@ -121,7 +122,7 @@ func c04Doc(t *core.Tape, w *world.World, version int) *world.TcbInfoDoc {
 				if t.Bool() {
 					st = "UpToDate"
 				}
-				mi.Levels = append(mi.Levels, world.ModLevel{Isvsvn: uint32(iv), Status: st})
+				mi.Levels = append(mi.Levels, world.ModLevel{Isvsvn: uint32(iv), Status: st, Date: world.RandTcbDate(t)})
 			}
 			return mi
 		}
@@ -165,6 +166,11 @@ func c04Run(r *core.Run) {
 	nul := false
 	nEvents := 3 + t.Draw(5)
 	r.Eventf("world %s", w.Describe())
+	var longLived *verify.Options
+	if t.Bool() {
+		longLived = worldOpts(w, O1)
+		r.Probe("timeline_through_one_options_value")
+	}
 	for ev := 0; ev < nEvents; ev++ {
 		switch k := t.Draw(5); {
 		case k == 0 && ev > 0: // the platform is patched: higher SVNs, new PCK certificate, new quote
@@ -205,6 +211,13 @@ func c04Run(r *core.Run) {
 		in := w.Inputs()
 		mv := world.EvalTcb(w.Tcb, in)
 		opts := worldOpts(w, O1+t.Draw(2))
+		if longLived != nil {
+			// a long-lived verifier: the same options value serves every verification of the timeline
+			lvl := O1 + t.Draw(2)
+			longLived.GetCollateral, longLived.CheckRevocations = true, lvl == O2
+			longLived.Getter = w.PCS
+			opts = longLived
+		}
 		raw := w.Quote.Bytes()
 		o := verifyRaw(raw, opts)
 		r.Eval()
@@ -324,6 +337,6 @@ func init() {
 			return 600
 		},
 		Run:       c04Run,
-		MustProbe: []string{"module_branch_with_platform_level_not_UpToDate", "first_match_not_first_level", "no_level_matches", "stale_document_served", "levels_api_no_match"},
+		MustProbe: []string{"timeline_through_one_options_value", "module_branch_with_platform_level_not_UpToDate", "first_match_not_first_level", "no_level_matches", "stale_document_served", "levels_api_no_match"},
 	})
 }
